@@ -73,6 +73,9 @@ class Scratch:
         return os.path.join(self.dir, *p)
 
     def close(self):
+        if os.environ.get("VERIF_KEEP_SCRATCH"):      # debugging only
+            log("[scratch] kept: %s" % self.dir)
+            return
         shutil.rmtree(self.dir, ignore_errors=True)
 
 
